@@ -165,13 +165,26 @@ TypeSpecs == {[ns |-> "", name |-> n] : n \in TypeNames}
              \cup {[ns |-> "FHIR", name |-> n] : n \in {"string", "HumanName", "Element", "Patient", "integer", "String"}}
              \cup {[ns |-> "System", name |-> n] : n \in {"String", "Integer", "Boolean", "Decimal", "string", "Date"}}
 
+(* FHIR elements of MR1/MR2 by family, as the OTHER operand of a comparison (equal values in different representations: *)
+(* decimal 50 and 50.0, integer 50, one instant written with two offsets, a bound code and a string 'final')            *)
+NumPeers == {Ix(Fld(Fld(Fld(Obn, "referenceRange"), "low"), "value"), 0), Ix(Fld(Fld(Fld(Obn, "referenceRange"), "low"), "value"), 1),
+             Ix(Fld(Fld(Fld(Obn, "referenceRange"), "high"), "value"), 0), Ix(Fld(Fld(Fld(Obn, "referenceRange"), "high"), "value"), 1),
+             Ix(Fld(Fld(Obn, "component"), "value"), 7), Ix(Fld(Fld(Obn, "component"), "value"), 1), Fld(Pat, "multipleBirth"),
+             Ix(Fld(Fld(Pat, "telecom"), "rank"), 1), Fld(Fld(Obn, "value"), "value")}
+StrPeers == {Fld(Obn, "status"), Ix(Fld(Fld(Obn, "component"), "value"), 6), Ix(Fld(Fld(Fld(Obn, "component"), "code"), "text"), 6),
+             Ix(Fld(Fld(Pat, "name"), "family"), 0), Ix(Fld(Fld(Pat, "name"), "family"), 1), Fld(Pat, "gender"), Fld(Fld(Obn, "value"), "unit"), Fld(Fld(Obn, "value"), "code")}
+DtPeers  == {Fld(Obn, "issued"), Ix(Fld(Fld(Obn, "component"), "value"), 5), Ix(Fld(Fld(Obn, "component"), "value"), 4), Fld(Obn, "effective"),
+             Fld(Fld(Pat, "meta"), "lastUpdated"), Fld(Fld(Fld(Pat, "birthDate"), "extension"), "value"), Fld(Pat, "birthDate")}
 (* operands of the Boolean operators that are FHIR elements: a boolean, a choice-typed boolean, a code, several items *)
 ElemOperands == {Fld(Pat, "active"), Fld(Pat, "deceased"), Fld(Pat, "gender"), Fld(Pat, "name"), Fld(Fld(Pat, "communication"), "preferred")}
 UrlBirth == <<104, 116, 116, 112, 58, 47, 47, 104, 108, 55, 46, 111, 114, 103, 47, 102, 104, 105, 114, 47, 83, 116, 114, 117, 99, 116, 117, 114, 101, 68, 101, 102, 105, 110, 105, 116, 105, 111, 110, 47, 112, 97, 116, 105, 101, 110, 116, 45, 98, 105, 114, 116, 104, 84, 105, 109, 101>>
 UrlA == <<104, 116, 116, 112, 58, 47, 47, 101, 120, 97, 109, 112, 108, 101, 46, 111, 114, 103, 47, 101, 120, 116, 47, 97>>
 
 OtherSign(op) == IF op = "+" THEN "-" ELSE "+"
-NCat == 14
+(* empty collections that are COMPUTED (a filter that matched nothing, a subset beyond the end, distinct of nothing) *)
+Empties == {LitE, Var("none"), Call(Var("none"), "distinct", <<>>), Call(Var("ints"), "skip", <<Lit("9", I(9))>>),
+            Call(Var("ints"), "where", <<Lit("false", B(FALSE))>>), Call(Var("strs"), "take", <<Lit("0", I(0))>>)}
+NCat == 15
 (* the steps of category cat offered after expression x whose value is the collection c *)
 StepCat(x, c, cat) ==
   LET fs == FieldsFor(c)
@@ -196,10 +209,14 @@ StepCat(x, c, cat) ==
                      \cup Tag({Bin(op, x, l) : op \in {"and", "or", "xor", "implies"}, l \in BoolLits \cup {LitE} \cup ElemOperands}, "C06")
                      \cup Tag({Bin(op, l, x) : op \in {"and", "or", "xor", "implies"}, l \in BoolLits \cup {LitE} \cup ElemOperands}, "C06")
                      \cup Tag({Call(x, "iif", <<Call(This, "exists", <<>>), Lit("1", I(1)), Lit("2", I(2))>>)}, "C06")
-       [] cat = 5 -> Tag({Bin(op, x, l) : op \in {"=", "!=", "<", "<=", ">", ">="},
+       [] cat = 5 -> Tag({Bin(op, x, e) : op \in {"=", "!=", "<", "<=", ">", ">=", "+", "-", "*"}, e \in Empties}
+                         \cup {Bin(op, e, x) : op \in {"=", "!=", "<", ">", "+", "-"}, e \in Empties}, "C07")
+                     \cup Tag({Bin(op, x, l) : op \in {"=", "!=", "<", "<=", ">", ">="},
                             l \in (IF nums THEN NumLits \cup {Var("min"), Var("big"), Var("neg")} ELSE IF strs THEN StrLits ELSE IF bools THEN BoolLits ELSE IF dates THEN DateLits
                                     ELSE IF dts THEN DtLits \cup DateLits ELSE IF times THEN TimeLits ELSE {LitE})}, OrEmpty(c, "C05"))
                      \cup Tag({Bin(op, x, y) : op \in {"=", "!="}, y \in {x, Call(x, "tail", <<>>), Call(x, "take", <<Lit("2", I(2))>>), Call(x, "first", <<>>)}}, OrEmpty(c, "C05"))
+                     \cup Tag({Bin(op, x, y) : op \in {"=", "!=", "<", "<=", ">", ">="},
+                                 y \in (IF nums THEN NumPeers ELSE IF strs THEN StrPeers ELSE IF dts \/ dates THEN DtPeers ELSE {})}, "C05")
                      \cup (IF nums /\ single
                            THEN Tag({Bin(op, x, y) : op \in {"=", "!=", "<", "<=", ">", ">="},
                                        y \in {Call(x, "toDecimal", <<>>), Bin("+", x, Lit("1", I(1))), Bin("-", x, Lit("0.5", Dec(FALSE, 5, -1))), Bin("*", x, Lit("1.0", Dec(FALSE, 1, 0)))}}, "C05")
@@ -210,7 +227,8 @@ StepCat(x, c, cat) ==
                       \cup {Bin(op, l, x) : op \in {"-", "div", "mod"}, l \in NumLits \cup {Var("min"), Var("big")}} \cup {Neg(x)}
                       \cup {Bin(op, x, x) : op \in {"+", "-", "*", "div", "mod"}}
                       \cup {Call(x, g, <<>>) : g \in MathFns} \cup {Call(x, "round", <<Lit("1", I(1))>>)}, OrEmpty(c, "C08"))
-                  \cup Tag({Call(x, "round", <<LitE>>)}, "C07")
+                  \cup Tag({Call(x, "round", <<e>>) : e \in Empties}, "C07")
+                  \cup Tag({Bin(op, x, e) : op \in {"+", "-", "*", "div", "mod"}, e \in Empties} \cup {Bin(op, e, x) : op \in {"+", "-", "*", "div", "mod"}, e \in Empties}, "C07")
              ELSE IF AllVal(c, {"date", "dt", "time"}) /\ single
                   THEN Tag({Bin(op, x, q) : op \in {"+", "-"}, q \in QLits}
                            \cup {Bin(OtherSign(op), Bin(op, x, q), q) : op \in {"+", "-"}, q \in QLits}, "C09")
@@ -241,7 +259,9 @@ StepCat(x, c, cat) ==
                       \cup {Call(x, "replace", <<l, m>>) : l \in StrArgs, m \in {Lit("'x'", S(<<120>>)), Lit("''", S(<<>>)), Var("pat")}}
                       \cup {Bin("&", x, l) : l \in StrLits} \cup {Bin("+", x, l) : l \in StrLits}
                       \cup {Bin("&", l, x) : l \in StrLits} \cup {Bin("+", l, x) : l \in StrLits}, OrEmpty(c, "C14"))
-                  \cup Tag({Call(x, g, <<LitE>>) : g \in StrFns1 \cup {"substring"}}, "C07")
+                  \cup Tag({Call(x, g, <<e>>) : g \in StrFns1 \cup {"substring"}, e \in Empties}
+                         \cup {Call(x, "substring", <<Lit("0", I(0)), e>>) : e \in Empties}
+                         \cup {Call(x, "replace", <<l, e>>) : l \in {Lit("'S'", S(<<83>>))}, e \in Empties}, "C07")
              ELSE IF strs THEN Tag({Call(x, g, <<Call(This, h, <<l>>)>>) : g \in {"where", "select", "all", "exists"}, h \in StrFns1, l \in StrLits}
                                    \cup {Call(x, "select", <<Call(This, "substring", <<a>>)>>) : a \in IntArgs}, "C14")
              ELSE {})
@@ -262,6 +282,13 @@ StepCat(x, c, cat) ==
             \* (ofType() is in the function table as not implemented: the machine models it, the generator leaves it out)
             (IF oneOrNone THEN Tag({TypeOpE(op, x, s.ns, s.name) : op \in {"is", "as"}, s \in TypeSpecs}, OrEmpty(c, "C12"))
              ELSE Tag({Call(x, g, <<TypeOpE(op, This, s.ns, s.name)>>) : g \in {"where", "select", "all"}, op \in {"is", "as"}, s \in TypeSpecs}, "C12"))
+       [] cat = 14 ->      \* operations whose operands or arguments are environment variables (their values differ in the cross evaluation)
+            (IF nums THEN Tag({Bin(op, x, v) : op \in {"=", "<", ">", "<=", ">="}, v \in {Var("seven"), Var("neg"), Var("big"), Var("min")}}, "C05")
+                          \cup Tag({Call(x, g, <<Bin(op, This, v)>>) : g \in {"where", "select", "all", "exists"}, op \in {"<", ">", "="}, v \in {Var("seven"), Var("neg")}}, "C05")
+                          \cup Tag({Bin(op, x, v) : op \in {"+", "-", "*"}, v \in {Var("seven"), Var("neg")}}, "C08")
+             ELSE IF strs THEN Tag({Call(x, g, <<Call(This, h, <<Var("pat")>>)>>) : g \in {"where", "select", "all"}, h \in StrFns1}, "C14")
+                               \cup Tag({Bin(op, x, Var("pat")) : op \in {"=", "<", ">"}}, "C05")
+             ELSE Tag({Call(x, g, <<v>>) : g \in {"skip", "take"}, v \in {Var("seven"), Var("neg"), Call(Var("ints"), "first", <<>>), Call(Var("ints"), "last", <<>>)}}, OrEmpty(c, "C10")))
        [] OTHER -> Tag({Fld(x, f) : f \in fs}, "C02") \cup Tag({Call(x, "first", <<>>), Call(x, "last", <<>>)}, "C10")
 
 Starts == {Var("uni"), Var("uni1"), Var("looks"), Var("digits"), Var("min"), Var("half"), Pat, Fld(Pat, "name"), Fld(Pat, "telecom"), Fld(Pat, "identifier"), Fld(Fld(Pat, "name"), "given"), Fld(Fld(Pat, "name"), "family"),
